@@ -1,8 +1,10 @@
 import H4.Elem
+import H4.ElemFn
+import H4.Gen.Fn.Hfile2
 import H4.Driver.Util
 /-! Line-protocol glue for engine `elem` (harness/e_elem.c): every `T elem <op> …` line is replayed on `H4.Elem.World`. -/
 namespace H4.Driver
-open H4.Elem H4.Gen.Hdf
+open H4.Elem H4.Gen.Hdf H4.ElemFn
 
 def showElemRes : Res → String
   | .fail => "fail"
@@ -14,6 +16,128 @@ def showElemRes : Res → String
 
 def elemModeOf (s : String) : Option Nat :=
   match s with | "c" => some DFACC_CREATE | "w" => some DFACC_RDWR | "r" => some DFACC_READ | _ => none
+
+
+/-! Cross-run of the functions TRANSLATED from `hdf/src/hfile.c` (`H4.Gen.Fn.Hfile2`, regenerated from /repo's current text): for every
+    `seek` / `read` / `write` / `inquire` / `trunc` / `setlength` line on an ordinary (non-special) access record the translated function is run
+    on the encoding of the model's record, descriptor and file (`H4.ElemFn`), the calls of the layer below answering as the model says
+    (`HP_read` FAILs iff `hpRead` does, `HLconvert` FAILs iff the model refuses the conversion, the call on the converted element returns the
+    model's result).  Result, new position, flags, descriptor and end of file are compared with the model's; a difference, undefined
+    behaviour or an unfinished loop is appended as ` GEN=…` to the answer, i.e. reported as a DIFF against the compiled C. -/
+namespace GenElem
+open H4.Gen.Fn.Hfile2 H4.ElemFn
+
+def cmp (model : String) (ub oof : Bool) (m g : String) : String :=
+  if ub then s!"{model} GEN=ub" else if oof then s!"{model} GEN=oof" else if m == g then model else s!"{model} GEN={g}|MODEL={m}"
+
+def accWord (a : Acc) : Int := if a.canWrite then 3 else 1
+
+/-- position / flags of the model's record after the call -/
+def accStr (w : World) (h : Nat) : String :=
+  match w.acc h with
+  | some a => s!"{a.posn} {b2i a.appendable} {b2i a.newElem}"
+  | none => "none"
+
+def ddStr (w : World) (a : Acc) : String :=
+  let f := w.file a.file
+  s!"{ddOff (f.dd a.slot)} {ddLen (f.dd a.slot)} {f.endOff}"
+
+def promoted (calls : List (List Int)) : Bool := calls.any (fun r => r.head? == some 6)
+
+def seek (w : World) (h : Nat) (off org : Int) (r : World × Res) (model : String) : String :=
+  match w.acc h with
+  | none =>
+    let s := Hseek 1 h off org true 0 0 0 [] 0 0 0 0 0 0 0 true 0 0 0 0
+    cmp model s.ub s.oof s!"{resCode r.2}" s!"{s.ret}"
+  | some a =>
+    if a.special then model else
+    let f := w.file a.file
+    let d := f.dd a.slot
+    let conv : Int := if f.writable = false ∨ (d.ext = none ∧ a.canWrite = false) then -1 else 0
+    let s := Hseek 1 h off org false 0 0 a.slot [] d.tag d.ref (ddOff d) (ddLen d) a.posn (b2i a.appendable) f.endOff false conv
+      a.blockSize a.numBlocks 0
+    let a' := (r.1.acc h).getD a
+    if promoted s.calls || a'.special then
+      cmp model s.ub s.oof s!"{resCode r.2} {a'.posn} {promoted s.calls}" s!"{s.ret} {s.access_rec_posn} {a'.special || (conv == -1)}"
+    else
+      cmp model s.ub s.oof s!"{resCode r.2} {a'.posn} {b2i a'.appendable}" s!"{s.ret} {s.access_rec_posn} {s.access_rec_appendable}"
+
+def read (w : World) (h : Nat) (len : Int) (r : World × Res) (model : String) : String :=
+  match w.acc h with
+  | none =>
+    let s := Hread 1 h len false true 0 0 0 0 [] 0 0 0 0 true 0 0 0 0 0
+    cmp model s.ub s.oof s!"{resCode r.2}" s!"{s.ret}"
+  | some a =>
+    if a.special then model else
+    let f := w.file a.file
+    let d := f.dd a.slot
+    let readr : Int := match f.hpRead ((ddOff d).toNat + a.posn) (readLen a d len).toNat with | none => -1 | some _ => 0
+    let s := Hread 1 h len false false (b2i a.newElem) 0 a.slot 0 [] d.tag d.ref (ddOff d) (ddLen d) false 1 0 a.posn 0 readr
+    let a' := (r.1.acc h).getD a
+    cmp model s.ub s.oof s!"{resCode r.2} {a'.posn} {b2i a'.newElem}" s!"{s.ret} {s.access_rec_posn} {s.access_rec_new_elem}"
+
+def write (w : World) (h : Nat) (len : Int) (r : World × Res) (model : String) : String :=
+  match w.acc h with
+  | none =>
+    let s := Hwrite 1 h len false true 0 0 true 0 0 0 0 [] 0 0 0 0 0 0 0 0 0 0 0 0 0 0 0 0
+    cmp model s.ub s.oof s!"{resCode r.2}" s!"{s.ret}"
+  | some a =>
+    if a.special then model else
+    let f := w.file a.file
+    let d := f.dd a.slot
+    let conv : Int := if f.writable = false then -1 else 0
+    let fuel := a.posn / 512 + 2
+    let blk : Int := if len < 0 then -1 else f.endOff      -- `HPgetdiskblock` refuses a negative size
+    let s := Hwrite fuel h len false false (accWord a) 0 false 1 (b2i a.newElem) a.slot 0 [] d.tag d.ref (ddOff d) (ddLen d) blk f.endOff 0
+      (b2i a.appendable) a.posn conv a.blockSize a.numBlocks (resCode r.2) 0 0 0
+    let a' := (r.1.acc h).getD a
+    if promoted s.calls || a'.special then
+      cmp model s.ub s.oof s!"{resCode r.2} {a'.special || (conv == -1)}" s!"{s.ret} {promoted s.calls}"
+    else
+      cmp model s.ub s.oof s!"{resCode r.2} {accStr r.1 h} {ddStr r.1 a}"
+        s!"{s.ret} {s.access_rec_posn} {s.access_rec_appendable} {s.access_rec_new_elem} {s.dd_off} {s.dd_len} {s.file_rec_f_end_off}"
+
+def trunc (w : World) (h : Nat) (n : Int) (r : World × Res) (model : String) : String :=
+  match w.acc h with
+  | none =>
+    let s := Htrunc 1 h n true 0 0 0 0 [] 0 0 0 0 0 0 0
+    cmp model s.ub s.oof s!"{resCode r.2}" s!"{s.ret}"
+  | some a =>
+    if a.special then model else
+    let f := w.file a.file
+    let d := f.dd a.slot
+    let s := Htrunc 1 h n false (accWord a) 0 0 a.slot [] d.tag d.ref (ddOff d) (ddLen d) 0 f.endOff a.posn
+    let a' := (r.1.acc h).getD a
+    cmp model s.ub s.oof s!"{resCode r.2} {a'.posn} {ddStr r.1 a}" s!"{s.ret} {s.access_rec_posn} {s.dd_off} {s.dd_len} {s.file_rec_f_end_off}"
+
+def setlength (w : World) (h : Nat) (n : Int) (r : World × Res) (model : String) : String :=
+  match w.acc h with
+  | none =>
+    let s := Hsetlength 1 h n true 0 0 0 0 [] 0 0 0 0 0 true 0 0 0 0
+    cmp model s.ub s.oof s!"{resCode r.2}" s!"{s.ret}"
+  | some a =>
+    if a.special then model else
+    let f := w.file a.file
+    let d := f.dd a.slot
+    let blk : Int := if n < 0 then -1 else f.endOff
+    let s := Hsetlength 1 h n false (b2i a.newElem) 0 a.slot 0 [] d.tag d.ref (ddOff d) (ddLen d) (accWord a) false 1 blk f.endOff 0
+    let a' := (r.1.acc h).getD a
+    cmp model s.ub s.oof s!"{resCode r.2} {b2i a'.newElem} {ddStr r.1 a}" s!"{s.ret} {s.access_rec_new_elem} {s.dd_off} {s.dd_len} {s.file_rec_f_end_off}"
+
+def inquire (w : World) (h : Nat) (model : String) : String :=
+  match w.acc h with
+  | none =>
+    let s := Hinquire 1 h true [] [] true [] true [] false [] false false [] true [] false [] true 0 0 0 0 [] 0 0 0 0 0 0
+    cmp model s.ub s.oof "fail" (if s.ret == -1 then "fail" else "ok")
+  | some a =>
+    if a.special then model else
+    let f := w.file a.file
+    let d := f.dd a.slot
+    let s := Hinquire 1 h true [] [] true [] true [0] false [0] false false [0] true [] false [0] false 0 a.file 0 a.slot [] d.tag d.ref
+      (ddOff d) (ddLen d) a.posn (accWord a)
+    cmp model s.ub s.oof model
+      (if s.ret == -1 then "fail" else s!"{s.plength.getD 0 0} {s.poffset.getD 0 0} {s.pposn.getD 0 0} {s.pspecial.getD 0 0}")
+end GenElem
 
 /-- engine `elem` -/
 def stepElem (w : World) (args : List String) : World × String :=
@@ -34,18 +158,45 @@ def stepElem (w : World) (args : List String) : World × String :=
       pure (hstartaccess w (← parseNat h) (← parseNat fi) (← parseNat tag) (← parseNat ref) (fl == "w" || fl == "wa") (fl == "wa" || fl == "ra"))
   | ["startwrite", h, fi, tag, ref, len] => run do
       pure (hstartwrite w (← parseNat h) (← parseNat fi) (← parseNat tag) (← parseNat ref) (← parseNat len))
-  | ["setlength", h, len] => run do pure (hsetlength w (← parseNat h) (← parseNat len))
+  | ["setlength", h, len] =>
+    match parseNat h, parseInt len with
+    | some h, some len => let r := hsetlengthI w h len; (r.1, GenElem.setlength w h len r (showElemRes r.2))
+    | _, _ => bad
   | ["hlcreate", h, fi, tag, ref, bl, nb] => run do
       pure (hlcreate w (← parseNat h) (← parseNat fi) (← parseNat tag) (← parseNat ref) (← parseNat bl) (← parseNat nb))
   | ["hlconvert", h, bl, nb] => run do pure (hlconvert w (← parseNat h) (← parseNat bl) (← parseNat nb))
   | ["setblockinfo", h, bl, nb] => run do pure (hsetblockinfo w (← parseNat h) (← parseInt bl) (← parseInt nb))
   | ["appendable", h] => run do pure (happendable w (← parseNat h))
-  | ["seek", h, off, org] => run do pure (hseek w (← parseNat h) (← parseInt off) (← parseNat org))
+  | ["seek", h, off, org] =>
+    match parseNat h, parseInt off, parseInt org with
+    | some h, some off, some org => let r := hseekI w h off org; (r.1, GenElem.seek w h off org r (showElemRes r.2))
+    | _, _, _ => bad
   | ["tell", h] => run do pure (htell w (← parseNat h))
-  | ["inquire", h] => run do pure (hinquire w (← parseNat h))
-  | ["read", h, n] => run do pure (hread w (← parseNat h) (← parseInt n))
-  | ["write", h, d] => run do pure (hwrite w (← parseNat h) (← parseHex d))
-  | ["trunc", h, n] => run do pure (htrunc w (← parseNat h) (← parseNat n))
+  | ["inquire", h] =>
+    match parseNat h with
+    | some h => let r := hinquire w h; (r.1, GenElem.inquire w h (showElemRes r.2))
+    | _ => bad
+  | ["read", h, n] =>
+    match parseNat h, parseInt n with
+    | some h, some n => let r := hread w h n; (r.1, GenElem.read w h n r (showElemRes r.2))
+    | _, _ => bad
+  | ["write", h, d] =>
+    match parseNat h, parseHex d with
+    | some h, some d => let r := hwrite w h d; (r.1, GenElem.write w h d.length r (showElemRes r.2))
+    | _, _ => bad
+  -- `Hwrite` with a negative length (a dummy buffer): refused
+  | ["writen", h, n] =>
+    match parseNat h, parseInt n with
+    | some h, some n =>
+      if n ≥ 0 then bad else
+      match hwriteNeg w h with
+      | some r => (r.1, GenElem.write w h n r (showElemRes r.2))
+      | none => (w, "fail")
+    | _, _ => bad
+  | ["trunc", h, n] =>
+    match parseNat h, parseInt n with
+    | some h, some n => let r := htruncI w h n; (r.1, GenElem.trunc w h n r (showElemRes r.2))
+    | _, _ => bad
   | ["endaccess", h] => run do pure (hendaccess w (← parseNat h))
   | ["dupdd", fi, t, r, ot, or_] => run do
       pure (hdupdd w (← parseNat fi) (← parseNat t) (← parseNat r) (← parseNat ot) (← parseNat or_))
